@@ -147,6 +147,8 @@ class Expander:
     def __init__(self, program: Program):
         self.P = program
         self._ret_cache: Dict[int, T] = {}
+        self._def_cache: Dict[Tuple[int, int], Tuple[T, frozenset]] = {}
+        self._frames: List[list] = []      # [footprint set, hits set]
 
     # ------------------------------------------------------------------ public
     def expr(self, fi: FunctionInfo, node: ast.AST, at: Optional[int] = None, env: Optional[dict] = None,
@@ -233,11 +235,37 @@ class Expander:
         return t
 
     def _def(self, fi: FunctionInfo, cfg: FunctionCFG, d: Def, env, stack, depth) -> T:
+        """memoising wrapper: a result is reusable under another expansion stack when the set of
+        definitions visited while computing it (its footprint) is disjoint from that stack and no
+        cycle was cut at a definition outside the footprint."""
+        sk = (id(fi), d.id)
+        if (id(fi), d.id) in stack:
+            if self._frames:
+                self._frames[-1][1].add(sk)
+            return T("prev", d.var, src=(fi, d.stmt))
+        c = self._def_cache.get(sk)
+        if c is not None and not (c[1] & set(stack)):
+            if self._frames:
+                self._frames[-1][0] |= c[1]
+            return c[0]
+        frame = [set([sk]), set()]
+        self._frames.append(frame)
+        try:
+            t = self._def_raw(fi, cfg, d, {}, stack, depth)
+        finally:
+            self._frames.pop()
+        ext = frame[1] - frame[0]
+        if not ext and depth <= MAX_DEPTH // 2:
+            self._def_cache[sk] = (t, frozenset(frame[0]))
+        if self._frames:
+            self._frames[-1][0] |= frame[0]
+            self._frames[-1][1] |= frame[1]
+        return t
+
+    def _def_raw(self, fi: FunctionInfo, cfg: FunctionCFG, d: Def, env, stack, depth) -> T:
         if depth > MAX_DEPTH:
             return T("unknown", "depth")
-        if d.id in stack:
-            return T("prev", d.var, src=(fi, d.stmt))
-        stack2 = stack + (d.id,)
+        stack2 = stack + ((id(fi), d.id),)
         src = (fi, d.stmt)
         k = d.kind
         if k == "param":
@@ -353,7 +381,7 @@ class Expander:
                 for a in parts[n:]:
                     t = T("attr", t, a, src=(fi, node))
                 return t
-        if cfg.defs_of(head):
+        if any(d.kind not in ("mut", "store", "augstore", "viewstore") for d in cfg.defs_of(head)):
             # local but nothing reaches (defined later / only on other paths)
             t = T("undef", head)
             for a in parts[1:]:
@@ -529,3 +557,31 @@ def _walk_no_scopes(node):
             if isinstance(ch, (ast.FunctionDef, ast.AsyncFunctionDef, ast.Lambda, ast.ClassDef)):
                 continue
             stack.append(ch)
+
+
+def deep_inline(X: "Expander", t: T, depth: int = 3, _memo=None) -> T:
+    """replace calls of in-package functions (funcref callee) by their return terms, recursively."""
+    memo = {} if _memo is None else _memo
+
+    def go(x, d):
+        if not isinstance(x, T):
+            if isinstance(x, tuple):
+                return tuple(go(a, d) for a in x)
+            return x
+        k = (id(x), d)
+        if k in memo:
+            return memo[k]
+        memo[k] = x
+        na = tuple(go(a, d) for a in x.args)
+        y = x if all(a is b for a, b in zip(na, x.args)) else T(x.op, *na, src=x.src)
+        if y.op == "call" and d > 0:
+            f = y.args[0]
+            if f.op == "funcref" and isinstance(f.args[0], FunctionInfo):
+                try:
+                    r = X.inline(y, f.args[0])
+                    y = T("inlined", f.args[0], go(r, d - 1), y, src=y.src)
+                except RecursionError:
+                    pass
+        memo[k] = y
+        return y
+    return go(t, depth)
